@@ -65,7 +65,7 @@ func Verif_C12_DocText(n, m, multi int) {
 	fset := token.NewFileSet()
 	var file *ast.File
 	var f0, f1, g0, g1 token.Pos
-	if verifsym.Symbolic() {
+	if verifsym.Symbolic() && !vRealParser {
 		src := vNewSrc(fset, mk(vFiller(n), vFiller(n), vFiller(m)))
 		file = src.file()
 		gd := &ast.GenDecl{Tok: token.TYPE, TokPos: src.pos("type T struct", token.NoPos)}
@@ -95,7 +95,7 @@ func Verif_C12_DocText(n, m, multi int) {
 		file.Decls = []ast.Decl{gd}
 	} else {
 		var err error
-		file, err = parser.ParseFile(fset, "/src/p/p.go", mk(a, b, c), parser.ParseComments)
+		file, err = vParse(fset, "/src/p/p.go", mk(a, b, c), parser.ParseComments)
 		if err != nil {
 			panic(err)
 		}
@@ -193,7 +193,7 @@ func Verif_C12_LineWrap(base int) {
 	fset := token.NewFileSet()
 	var file *ast.File
 	var pa, pb token.Pos
-	if verifsym.Symbolic() {
+	if verifsym.Symbolic() && !vRealParser {
 		src := vNewSrc(fset, text)
 		file = src.file()
 		c1 := src.pos("// +tag=a", token.NoPos)
@@ -209,7 +209,7 @@ func Verif_C12_LineWrap(base int) {
 		file.Decls = []ast.Decl{da, db}
 	} else {
 		var err error
-		file, err = parser.ParseFile(fset, "/src/p/p.go", text, parser.ParseComments)
+		file, err = vParse(fset, "/src/p/p.go", text, parser.ParseComments)
 		if err != nil {
 			panic(err)
 		}
